@@ -114,9 +114,19 @@ func (p *uPacketPacker) PackCoalescedPacket(onlyAck bool, maxSize protocol.ByteC
 		}
 	}
 
+	// [UQUIC] An Initial packet carrying frames is re-framed by the spec's frame builder in
+	// appendInitialPacket: its final size is whatever the builder produces (PING/PADDING
+	// frames, exact PacketSize), not the size computed above, and the datagram is then
+	// padded with trailing zeros up to UDPDatagramMinSize. A packet coalesced behind it
+	// would be sized against the wrong remaining space (overrunning the packet buffer) and
+	// would end up after the datagram padding, where no receiver can find it. Such an
+	// Initial therefore gets a datagram of its own; Handshake and 1-RTT data go out in the
+	// next one.
+	initialOwnsDatagram := !onlyAck && len(initialPayload.frames) > 0
+
 	// Add a Handshake packet.
 	var handshakeSealer sealer
-	if (onlyAck && size == 0) || (!onlyAck && size < maxSize-protocol.MinCoalescedPacketSize) {
+	if !initialOwnsDatagram && ((onlyAck && size == 0) || (!onlyAck && size < maxSize-protocol.MinCoalescedPacketSize)) {
 		var err error
 		handshakeSealer, err = p.cryptoSetup.GetHandshakeSealer()
 		if err != nil && err != handshake.ErrKeysDropped && err != handshake.ErrKeysNotYetAvailable {
@@ -143,7 +153,7 @@ func (p *uPacketPacker) PackCoalescedPacket(onlyAck bool, maxSize protocol.ByteC
 	var oneRTTSealer handshake.ShortHeaderSealer
 	var connID protocol.ConnectionID
 	var kp protocol.KeyPhaseBit
-	if (onlyAck && size == 0) || (!onlyAck && size < maxSize-protocol.MinCoalescedPacketSize) {
+	if !initialOwnsDatagram && ((onlyAck && size == 0) || (!onlyAck && size < maxSize-protocol.MinCoalescedPacketSize)) {
 		var err error
 		oneRTTSealer, err = p.cryptoSetup.Get1RTTSealer()
 		if err != nil && err != handshake.ErrKeysDropped && err != handshake.ErrKeysNotYetAvailable {
